@@ -314,6 +314,15 @@ func (fv *FuncVC) evalAppend(call *ast.CallExpr, st *State) Val {
 	}
 	r := fv.freshRef(st, "append")
 	fv.setHeap(st, h, sx("store", fv.getHeap(st, h), r, arr))
+	// redundant ground facts "the appended element is readable at its position": they give the
+	// solvers the witness terms that existential goals about the new slice need
+	for i := range call.Args[1:] {
+		pos := ln
+		if i > 0 {
+			pos = sx("+", ln, intLit(int64(i)))
+		}
+		fv.addFact(st, mkEq(sx("select", sx("select", fv.getHeap(st, h), r), pos), sx("select", arr, pos)))
+	}
 	return Val{sx("mk_slice", r, sx("+", ln, intLit(int64(len(call.Args)-1)))), SSlice, T}
 }
 
@@ -459,7 +468,14 @@ func (fv *FuncVC) pureApp(call *ast.CallExpr, f *types.Func, full string, recv *
 			rt = fv.typeOf(call)
 		}
 		rs := fv.th.sortOf(rt)
-		name := "x$" + sanitize(full)
+		// methods of dependency objects: one symbol per (package, method name), whatever the static receiver
+		// type (interface method, promoted method of an embedded struct, concrete method): an object has one
+		// dynamic type, so these all denote the same function on references
+		symbol := full
+		if sig.Recv() != nil && f.Pkg() != nil {
+			symbol = f.Pkg().Path() + "." + f.Name()
+		}
+		name := "x$" + sanitize(symbol)
 		var sorts []Sort
 		for _, a := range all {
 			sorts = append(sorts, a.S)
